@@ -10,7 +10,7 @@
      run_sched qs s    the order in which the Write calls of several writers (queues qs) reach the
                        connection under schedule s; sel i s l = the messages of writer i within l. *)
 From Coq Require Import NArith ZArith List.
-From Cloak Require Import Gen.Consts Model.Record Proofs.Record.
+From Cloak Require Import Gen.Consts Model.Record Proofs.Record Model.WsWriters Proofs.WsWriters.
 Import ListNotations.
 Local Open Scope N_scope.
 
@@ -105,3 +105,51 @@ Theorem C05_example :
   /\ tls_reads 9 5 [[23;3;3;0;6;1;2;3;4;5;6]] = [TrShortBuffer].
 Proof. exact ex_reads. Qed.
 Print Assumptions C05_example.
+
+(* WebSocket adapter, WRITE side (Model/WsWriters.v): WebSocketConn.Write = writeM.Lock; WriteMessage;
+   writeM.Unlock, where one message is one or more frames (one underlying Write each, FIN on the last).
+   wrun n (w_init qs) tr = the writers' threads (queues qs of messages to write) after the
+   interleaving tr of their steps (take the mutex / hand one frame to the connection / release);
+   lock_order tr = who took the mutex, in order; reasm = the peer's message reader.
+   For EVERY interleaving: the messages that took the mutex, in that order, are an order-preserving
+   merge of the writers' queues; with no write in progress the peer has received exactly these
+   messages, whole, each once, in that order; at any moment it has received a prefix of them lacking
+   at most the one being written. *)
+Theorem C05_ws_no_interleave : forall n qs tr st, wrun n (w_init qs) tr = Some st ->
+  exists l, run_sched qs (lock_order tr) = Some (l, w_queues st)
+    /\ (forall i, nth i qs [] = sel i (lock_order tr) l ++ nth i (w_queues st) [])
+    /\ (w_lock st = None -> reasm [] (w_wire st) = (l, []))
+    /\ exists k, fst (reasm [] (w_wire st)) = firstn k l /\ (length l <= S k)%nat.
+Proof. exact ws_no_interleave. Qed.
+Print Assumptions C05_ws_no_interleave.
+
+(* ... and each of them is returned by one WebSocketConn.Read whose buffer it fits *)
+Theorem C05_ws_reads_whole : forall buflen (l : list (list N)) (pss : list (list piece)),
+  Forall2 (fun ps m => all_data ps /\ ws_message ps = m) pss l -> fits buflen l ->
+  map (ws_read buflen true) pss = map WsOk l.
+Proof. exact ws_reads_whole. Qed.
+Print Assumptions C05_ws_reads_whole.
+
+(* the holder of the write mutex can always take its next step (no writer waits for ever) *)
+Theorem C05_ws_holder_moves : forall n st j, w_lock st = Some j ->
+  (exists st', wstep n st (j, WEmit) = Some st') \/ (exists st', wstep n st (j, WUnlock) = Some st').
+Proof. exact ws_holder_moves. Qed.
+Print Assumptions C05_ws_holder_moves.
+
+(* what the mutex is for: the same writers without it (ustep: a writer enters WriteMessage at once)
+   have a run after which the peer has read two messages neither of which was written *)
+Theorem C05_ws_unlocked_refuted :
+  exists tr st, urun 1 (u_init [[[1;2;3;4]]; [[9]]]) tr = Some st
+    /\ fst (reasm [] (u_wire st)) = [[1;2;9]; [3;4]]
+    /\ ~ In [1;2;9] [[1;2;3;4]; [9]].
+Proof. exact ws_unlocked_interleaves. Qed.
+Print Assumptions C05_ws_unlocked_refuted.
+
+(* non-vacuity: a run of the locked system with both writers and a fragmented message *)
+Theorem C05_ws_example :
+  exists st, wrun 1 (w_init [[[1;2;3;4]; [5]]; [[9]]])
+                 [(0, WLock); (0, WEmit); (0, WEmit); (0, WUnlock); (1, WLock); (1, WEmit); (1, WUnlock);
+                  (0, WLock); (0, WEmit); (0, WUnlock)]%nat = Some st
+    /\ reasm [] (w_wire st) = ([[1;2;3;4]; [9]; [5]], []) /\ w_lock st = None /\ length (w_wire st) = 4%nat.
+Proof. exact ws_example. Qed.
+Print Assumptions C05_ws_example.
